@@ -1240,6 +1240,36 @@ def unit_streams(ck, batch, model=True, scale=1.0):
     flush(ck, batch)
 
 
+def full_model_weight_stream(ck, batch, n, model=True):
+    """datasets with a global model (full-model path) and model weights on global_interval x model_interval: the flattened
+    weight has to reach the rows of the Kronecker matrix that belong to the points inside both intervals"""
+    rng = ck.rng
+    done = 0
+    for _ in range(30 * n):
+        if done >= n:
+            break
+        spec = e2e_spec(rng, force_extra={"link_clp": False, "tol": 0.0, "full_model": True, "n_datasets": rng.choice([1, 1, 2])})
+        full = [d for d in spec["datasets"] if d.get("gmcs")]
+        if not full:
+            continue
+        ds0 = rng.choice(full)
+        if len(ds0["global_axis"]) < 2 or len(ds0["model_axis"]) < 2:
+            continue
+        gc = bound_candidates(sorted(ds0["global_axis"]))
+        mc = bound_candidates(ds0["model_axis"])
+        spec["weights"] = [w for w in spec["weights"] if ds0["label"] not in w["datasets"]]
+        spec["weights"].append({"datasets": [ds0["label"]], "value": rng.choice([2.0, 3.0, 0.5, 5.0]),
+                                "global_interval": rand_iv(rng, gc), "model_interval": rand_iv(rng, mc)})
+        ck.count("e2e-weight:full-model-with-interval-weight")
+        check_case(ck, {"kind": "e2e", "spec": spec}, batch, model)
+        done += 1
+        if len(batch) >= 40:
+            flush(ck, batch)
+        if not model and ck.violations:
+            break
+    flush(ck, batch)
+
+
 def e2e_stream(ck, batch, n, model=True):
     gen_scheme.model_class()
     for i in range(n):
@@ -1267,6 +1297,7 @@ def run(ck):
     e2e_stream(ck, batch, ck.n(140, 2500))
     e2e_reassign_stream(ck, batch, ck.n(40, 800))
     multi_dataset_penalty_stream(ck, batch, ck.n(25, 400))
+    full_model_weight_stream(ck, batch, ck.n(25, 400))
     c = ck.counters
     ck.extra["link_member_vs_aligned"] = {
         "member points of linked groups": c.get("link:member-points", 0),
@@ -1292,6 +1323,8 @@ def search(ck):
         e2e_reassign_stream(ck, batch, ck.n(60, 600), model=False)
     if not ck.violations:
         multi_dataset_penalty_stream(ck, batch, ck.n(40, 400), model=False)
+    if not ck.violations:
+        full_model_weight_stream(ck, batch, ck.n(40, 400), model=False)
 
 
 def replay(ck, case):
